@@ -5,6 +5,7 @@ package zzverifecs
 import (
 	"fmt"
 	"os"
+	"runtime"
 	"runtime/debug"
 	"strings"
 	"testing"
@@ -102,6 +103,7 @@ func TestVerifC04ECSRace(t *testing.T) {
 		}
 		if r.ShouldRun() {
 			shard, nshards := r.NShards()
+			execs := 0
 			pre := vrt.Pick(r, 2, 3)
 			r.Bound("ecs_race_preemptions", pre)
 			var scenarios [][]int
@@ -124,7 +126,12 @@ func TestVerifC04ECSRace(t *testing.T) {
 				var env *c04rEnv
 				found := 0
 				st := xsched.Explore(xsched.Config{MaxPreemptions: p, MaxDeviations: 0, Stop: r.Expired},
-					func(s *xsched.Sched) { env = c04rSetup(qs, s) },
+					func(s *xsched.Sched) {
+						if execs++; execs%2000 == 0 {
+							runtime.GC()
+						}
+						env = c04rSetup(qs, s)
+					},
 					func(x *xsched.Exec) bool {
 						r.Eval()
 						r.Trans(len(x.Sched.Trace))
